@@ -122,8 +122,16 @@ class VisitorFacts(object):
                 return True
         return False
 
-    def writes_namespace(self, fi):
+    def writes_namespace(self, fi, _depth=0):
         selfn = fi.params()[0][0]
+        # through a helper method of the visitor that records the rebinding
+        if _depth == 0:
+            for n in ast.walk(fi.node):
+                if isinstance(n, ast.Call) and isinstance(n.func, ast.Attribute) and isinstance(n.func.value, ast.Name) and n.func.value.id == selfn:
+                    m = self.ci.methods.get(n.func.attr)
+                    if m is not None and m is not fi and not n.func.attr.startswith('visit') and n.func.attr != 'generic_visit' \
+                            and self.writes_namespace(m, 1):
+                        return True
         for n in ast.walk(fi.node):
             if isinstance(n, ast.Subscript) and isinstance(n.ctx, ast.Store) and norm(n.value) == '%s.namespace' % selfn:
                 return True
@@ -433,8 +441,10 @@ def _prescans_stores(fi):
                 helper = fi.module.funcs.get(it.func.id)
                 if helper is not None and walks(helper.node) and it.args and norm(it.args[0]) == nodep:
                     ok_iter = True
+        vf = VisitorFacts(fi.module.repo)
         writes = any(isinstance(n, ast.Call) and isinstance(n.func, ast.Attribute) and isinstance(n.func.value, ast.Name) and n.func.value.id == selfn
-                     and n.func.attr in ('bind_name', 'visit', 'invalidate', '_invalidate') for n in ast.walk(stmt)) or \
+                     and (n.func.attr == 'visit' or (vf.ci.methods.get(n.func.attr) is not None and vf.writes_namespace(vf.ci.methods[n.func.attr], 1)))
+                     for n in ast.walk(stmt)) or \
             any(isinstance(n, ast.Subscript) and isinstance(n.ctx, ast.Store) and norm(n.value) == '%s.namespace' % selfn for n in ast.walk(stmt))
         later_traversal = any(isinstance(n, ast.Call) and norm(n.func) == '%s.generic_visit' % selfn for later in fi.node.body[i + 1:] for n in ast.walk(later))
         if ok_iter and writes and later_traversal:
